@@ -984,7 +984,12 @@ func (e *Exec) doSeq(i int, s *Step, ts *treeState) *Violation {
 		msg := guard(func() {
 			api.Seq(s.Op, s.K, s.K2, kOf(s.N))(func(k []byte, id uint64, vok bool) bool {
 				got = append(got, pair{k, id, vok})
-				switch (n + i) % 6 {
+				switch (n + i) % 9 {
+				case 6, 7, 8:
+					// another sequence of the same tree, obtained and partly consumed inside
+					// the loop body (every sequence method is read-only, too)
+					stop := 1 + (n+i)%3
+					api.Seq([]string{"all", "back", "topk"}[(n+i)%9-6], nil, nil, 3)(func([]byte, uint64, bool) bool { stop--; return stop > 0 })
 				case 0:
 					if vok {
 						api.Insert(k, id) // the key just delivered, its own value again
